@@ -410,7 +410,8 @@ def main(argv=None):
         "known_findings_reproduced": {s: col.viol_counts[s] for s in known_hit},
         "violation_signatures": {s: col.viol_counts[s] for s in col.viol_counts if s not in open_sigs},
     }
-    if col.states or getattr(mod, "LEVEL", "") == "model_checking":
+    if col.states and col.transitions:
+        # (a model-checking run whose searches all aborted has no graph to report: the generic keys remain)
         cov.update(
             states=col.states,
             transitions=col.transitions,
@@ -447,7 +448,8 @@ def main(argv=None):
     )
     if not ok:
         print("HARNESS-ERROR: evidence file does not validate:", msg)
-        return 2
+        if rc != 1:  # a reproduced violation is reported as such even if the coverage record is incomplete
+            return 2
     if rc == 0 and col.evaluations == 0:
         print("HARNESS-ERROR: nothing was evaluated")
         return 2
